@@ -1,6 +1,6 @@
 """C18 travel-limit helpers: checkLimits, checkLimitsTol, point_in_bounds, constrainLimits."""
 from fractions import Fraction as F
-from common import cq, cb, cexn
+from common import cq, cb, cexn, clist
 from plotink import plot_utils
 
 import common
@@ -8,7 +8,7 @@ ID = "C18"
 COQ_HEADER = "From Plotink Require Import Base.Prelude Corr.C18.\nOpen Scope Q_scope."
 COQ_RUN = "run18"
 COQ_CASE_TYPE = "case18"
-RULE = ("every ordering of v against {lo, hi, lo-tol, hi+tol} incl. equality and +-tiny, lo=hi, tol=0, plus random rationals, "
+RULE = ("sequences of point_in_bounds calls on one bounds object changed in place between the calls; every ordering of v against {lo, hi, lo-tol, hi+tol} incl. equality and +-tiny, lo=hi, tol=0, plus random rationals, "
         "ints and floats (floats are converted exactly to rationals); non-trivial = value outside the closed range or within tol of a bound")
 TRUSTED = ["python Fraction/float comparison semantics = exact rational comparison (floats converted exactly)"]
 ASSUMPTIONS = ["lower <= upper, tolerance >= 0 (the property's domain); finite inputs"]
@@ -47,6 +47,19 @@ def generate(rng, tier):
         for _ in range(6):
             cases.append({"kind": "pib", "x": rng.choice(xs), "y": rng.choice(ys), "xmin": lo, "ymin": ylo,
                           "xmax": hi, "ymax": yhi, "tol": tol, "family": "point_in_bounds"})
+    # the same bounds object handed to point_in_bounds again after the caller changed it in place (a plotter's travel limits are
+    # edited between layers): the answer must follow the contents, not the object
+    for _ in range(max(10, n // 5)):
+        k = rng.randint(0, 3); steps = []
+        tol = abs(_rand(rng, k)) / rng.choice([1, 10, 1000]) if rng.random() < 0.8 else F(0)
+        for _ in range(rng.randint(2, 5)):
+            a, b, c2, d = _rand(rng, k), _rand(rng, k), _rand(rng, k), _rand(rng, k)
+            lo, hi, ylo, yhi = min(a, b), max(a, b), min(c2, d), max(c2, d)
+            xs = _vals(rng, lo, hi, tol); ys = _vals(rng, ylo, yhi, tol)
+            for _ in range(rng.randint(1, 3)):
+                steps.append({"x": rng.choice(xs + [_rand(rng, k)]), "y": rng.choice(ys + [_rand(rng, k)]), "xmin": lo, "ymin": ylo, "xmax": hi, "ymax": yhi,
+                              "tol": tol if rng.random() < 0.8 else tol * 2, "how": rng.choice(["inner", "inner", "outer"])})
+        cases.append({"kind": "pibseq", "steps": steps, "family": "point_in_bounds/bounds-object-changed-in-place"})
     return cases
 
 def _conv(x, mode):
@@ -61,6 +74,15 @@ def run_impl(c):
         r, f = plot_utils.checkLimitsTol(c["v"], c["lo"], c["hi"], c["tol"]); return {"r": F(r), "f": bool(f)}
     if k == "con":
         return {"r": F(plot_utils.constrainLimits(c["v"], c["lo"], c["hi"]))}
+    if k == "pibseq":
+        bounds = [[0, 0], [0, 0]]; out = []
+        for st in c["steps"]:
+            if st["how"] == "inner":
+                bounds[0][0], bounds[0][1], bounds[1][0], bounds[1][1] = st["xmin"], st["ymin"], st["xmax"], st["ymax"]
+            else:
+                bounds[0] = [st["xmin"], st["ymin"]]; bounds[1] = [st["xmax"], st["ymax"]]
+            out.append(bool(plot_utils.point_in_bounds([st["x"], st["y"]], bounds, st["tol"])))
+        return {"bs": out}
     return {"b": bool(plot_utils.point_in_bounds([c["x"], c["y"]], [[c["xmin"], c["ymin"]], [c["xmax"], c["ymax"]]], c["tol"]))}
 
 def coq_case(c, r):
@@ -70,17 +92,24 @@ def coq_case(c, r):
         if k == "pib":
             return "(K_con 0 0 0 1)"
         return "(K_con 0 0 0 1)"
+    if k == "pibseq":
+        return "(K_pibs %s)" % clist(["(%s, %s)" % (", ".join(cq(st[x]) for x in ("x", "y", "xmin", "ymin", "xmax", "ymax", "tol")), cb(b)) for st, b in zip(c["steps"], r["bs"])])
     if k == "check": return "(K_check %s %s %s %s %s)" % (cq(c["v"]), cq(c["lo"]), cq(c["hi"]), cq(r["r"]), cb(r["f"]))
     if k == "tol": return "(K_tol %s %s %s %s %s %s)" % (cq(c["v"]), cq(c["lo"]), cq(c["hi"]), cq(c["tol"]), cq(r["r"]), cb(r["f"]))
     if k == "con": return "(K_con %s %s %s %s)" % (cq(c["v"]), cq(c["lo"]), cq(c["hi"]), cq(r["r"]))
     return "(K_pib %s %s %s %s %s %s %s %s)" % tuple([cq(c[x]) for x in ("x", "y", "xmin", "ymin", "xmax", "ymax", "tol")] + [cb(r["b"])])
 
 def nontrivial(c, r):
+    if c["kind"] == "pibseq": return True
     if c["kind"] == "pib":
         return not (c["xmin"] < c["x"] < c["xmax"] and c["ymin"] < c["y"] < c["ymax"])
     return not (c["lo"] < c["v"] < c["hi"])
 
 def shrink(c):
+    if c["kind"] == "pibseq":
+        for i in range(len(c["steps"])):
+            if len(c["steps"]) > 1: yield dict(c, steps=c["steps"][:i] + c["steps"][i + 1:])
+        return
     for key in [k for k in c if isinstance(c[k], F)]:
         v = c[key]
         for nv in (F(round(v)), F(int(v * 2), 2), F(0)):
